@@ -379,7 +379,8 @@ def make_mp(sched, on_event=None):
         def put(self, obj, block=True, timeout=None):
             data = pickle.dumps(obj)
             self.items.append(data)
-            sched.emit('put', queue=self.id, n=len(self.items))
+            flag = obj[0] if isinstance(obj, tuple) and obj and isinstance(obj[0], bool) else None
+            sched.emit('put', queue=self.id, n=len(self.items), flag=flag)
             sched.yield_point('queue.put')
 
         def get(self, block=True, timeout=None):
